@@ -69,7 +69,7 @@ theorem itp_exit (n : Node α) (h : n.a1 < n.a2) : itp n n.a2 = n.g2 := by
     spanning the query bearing or having a minimum gradient that is at most `g` (the sentinel dummy):
     the caller's test `query ≤ g` holds exactly when no nearer node spanning the bearing has a
     greater interpolated gradient. -/
-theorem query_decides' {S : α} {t : Tree α} (K ang g : α) (hS : S ≤ g) (hb : BST t) (ha : AugLe S t)
+theorem query_decides' {S : α} {t : Tree α} (K ang g : α) (hS : S ≤ g) (hb : BST t) (ha : AugLeQ S t)
     (hK : ∃ n ∈ t.toList, n.key = K)
     (hact : ∀ n ∈ t.toList, n.key < K → spans n ang = true ∨ minv n ≤ g) :
     query S t K ang g ≤ g ↔ ∀ n ∈ t.toList, n.key < K → spans n ang = true → itp n ang ≤ g := by
@@ -84,7 +84,7 @@ theorem query_decides' {S : α} {t : Tree α} (K ang g : α) (hS : S ≤ g) (hb 
       intro n hn hk hsp
       exact h.2 n (by simp [hn, hk]) hsp
   · intro hall
-    have hs : ¬ g < short S t K := not_lt.mpr (short_le K g hS hb ha (fun n hn hk => by
+    have hs : ¬ g < short S t K := not_lt.mpr (short_le_Q K g hS hb ha (fun n hn hk => by
       rcases hact n hn hk with hsp | hle
       · exact le_trans (minv_le_itp n ang hsp) (hall n hn hk hsp)
       · exact hle))
